@@ -20,8 +20,8 @@ verus! {
 //@   ensures E_guard_cap: r == (if cap > 10000 { 10000 } else if cap < 0 { 0 } else { cap })
 //@ end
 
-pub const LEN_GUARD: i64 = 10_000;
-pub const CAP_GUARD: i64 = 10_000;
+//@ const: src/debugger/variable/value/specialization/mod.rs :: LEN_GUARD
+//@ const: src/debugger/variable/value/specialization/mod.rs :: CAP_GUARD
 
 /// std VecDeque::to_physical_idx: logical element i lives at (head + i) mod capacity
 pub open spec fn phys(head: int, i: int, cap: int) -> int { (head + i) % cap }
